@@ -169,6 +169,12 @@ def _operators():
                               (lambda s: lambda L, f, k: L.m.Ite(L.leaf("bool", k), f, f))(s)]              # 1+2
         O["ite-%s-p2" % s] = [s, (lambda s: lambda L, f, k: L.m.Ite(L.leaf("bool", k), L.leaf(s, k), f))(s),
                               (lambda s: lambda L, f, k: L.m.Ite(L.cond(s, f, k), L.leaf(s, k), f))(s)]     # 0+2
+    for s in ("bv", "int", "arr"):
+        # decision-table shapes: the branch that does not carry the chain is itself an ITE
+        O["ite-%s-p2-thenite" % s] = [s, (lambda s: lambda L, f, k: L.m.Ite(
+            L.leaf("bool", k), L.m.Ite(L.leaf("bool", k + 1), L.leaf(s, k), L.leaf(s, k + 1)), f))(s), None]
+        O["ite-%s-p1-elseite" % s] = [s, (lambda s: lambda L, f, k: L.m.Ite(
+            L.leaf("bool", k), f, L.m.Ite(L.leaf("bool", k + 1), L.leaf(s, k), L.leaf(s, k + 1))))(s), None]
     O["store"] = ["arr", lambda L, f, k: L.m.Store(f, L.leaf("int", k), L.leaf("int", k + 1)),
                   lambda L, f, k: L.m.Store(f, L.leaf("int", k), L.m.Select(f, L.leaf("int", k + 1)))]
     O["select-store-v"] = ["arr", lambda L, f, k: L.m.Store(L.leaf("arr", k), L.leaf("int", k),
